@@ -8,6 +8,7 @@ CONSTANTS
   Corrs = {"none", "c"}
   Sts = {"ok", "fail"}
   Ns = {1}
+  Rgs = {1, 2}
   Ts = {"tx", "err"}
   MaxId = 2
   MaxTx = 3
